@@ -648,6 +648,19 @@ def shrink_prog(p, fails, budget):
                     progress = True
                 else:
                     i += 1
+    # drop the try blocks that have become empty
+    for bi in range(len(bodies(cur))):
+        i = 0
+        while i + 1 < len(bodies(cur)[bi]) and budget[0] > 0:
+            b = bodies(cur)[bi]
+            if b[i][0] == "try" and b[i + 1][0] == "endtry":
+                cand = json.loads(json.dumps(cur))
+                del bodies(cand)[bi][i:i + 2]
+                budget[0] -= 1
+                if fails(cand):
+                    cur = cand
+                    continue
+            i += 1
     return cur
 
 
@@ -788,7 +801,7 @@ def run(ctx):
         p = progs[i]
         a, b, src = impl[i], cq[i]["S"], cq[i]["src"]
         if n == 0 and cases[i][2] != "moved":
-            budget = [30]
+            budget = [36]
 
             def fails(q):
                 x, y, _ = observe(to_tuples(q))
@@ -865,6 +878,13 @@ def run(ctx):
                               input=src, expected=exp, actual=got_m, known_class="finally_switch_shares_flag")
             else:
                 ctx.violation("finally block with a fiber switch misbehaves outside the known class", input=src, expected=exp, actual=got_m)
+
+    # keep the report short: at most five new violations (the first one shrunk) besides the known class
+    kn = [v for v in ctx.violations if v.get("known_class")]
+    nw = [v for v in ctx.violations if not v.get("known_class")]
+    if len(nw) > 5:
+        notes.append("%d violations found, 5 reported" % len(nw))
+    ctx.violations[:] = nw[:5] + kn[:2]
 
     sample_i = next((i for i in idx if cases[i][2] == "random" and cases[i][1] and nontrivial(cases[i][1])), idx[0] if idx else None)
     ctx.cov.update({
